@@ -283,7 +283,6 @@ func durCanonPlain(mins int, signed bool) string {
 	return s
 }
 
-
 // c02Filtered: `klog total --diff --decimal` under a date filter reports the total, the should-total and the diff
 // of exactly the selected records (the should-total is the sum of THEIR should-totals).
 func c02Filtered(env *Env, o *Outcome, text string, data map[string]any) {
